@@ -8,7 +8,7 @@ import ast
 from .terms import access_path, is_lit, root_of, show
 from .walker import flatten_events
 
-DECORATOR_WHITELIST = {"classmethod", "staticmethod", "property", "abstractmethod", "abc.abstractmethod", "overload", "typing.overload", "conda.plugins.hookimpl"}
+DECORATOR_WHITELIST = {"classmethod", "staticmethod", "property", "abstractmethod", "abc.abstractmethod", "overload", "typing.overload", "conda.plugins.hookimpl", "contextmanager", "contextlib.contextmanager"}
 MUTATING_EXTERNALS = {"ext:random.shuffle": [0], "ext:json.dump": [1], "ext:heapq.heappush": [0], "ext:heapq.heappop": [0], "ext:bisect.insort": [0]}
 
 
